@@ -254,7 +254,7 @@ def rule_r4(p, res):
             gs = g.guards(n)
             for t, pol in gs:
                 s = norm(t)
-                if pol and s in ("not np.all(%s)" % sf, "not np.all(%s != 0)" % sf, "np.any(%s == 0)" % sf, "not all(%s)" % sf):
+                if (pol and s in ("np.any(%s == 0)" % sf,)) or ((not pol) and s in ("np.all(%s)" % sf, "np.all(%s != 0)" % sf, "all(%s)" % sf)):
                     zero_raise.append((n, t))
     r.check(bool(zero_raise), f, f.node, "the factory must refuse a zero scale factor (no `raise` under a zero test found)")
     rets = returns_of(f.node)
